@@ -12,6 +12,7 @@ import (
 	"fmt"
 	"math/rand"
 	"os"
+	"slices"
 	"sort"
 	"strings"
 
@@ -41,33 +42,35 @@ type cnDriver struct {
 	w       *bufio.Writer
 	nEvents int
 	// bookkeeping for the scenario generator
-	lastProj   map[string]any
-	lastReg    map[string]any
-	sent       [][]byte // previously included raw transactions (for replays)
-	diverged   []map[string]any
-	panics     []string
-	rejects    int
-	paths      map[string]int
-	txKinds    map[string]int
-	sched      [][]string            // optional per-height path assignment (from TLC)
-	nodeRts    map[string]string     // runtimes each node is currently registered for
-	pendRts    map[*cnTxSpec]string  // proposed runtime lists of not yet executed registrations
-	rtOwner    map[string]string     // registered runtimes -> owning entity
-	rtDeps     map[string][][2]int64 // registered runtimes -> deployments (version, valid from) as last accepted
-	nodeVer    map[string]int64      // "node/runtime" -> runtime version the node last registered successfully
-	epoch      int64
-	blockLog   map[int64]*cnLogged // decided blocks with the validator set they were executed under and the observer\'s app hash
-	nSync      int
-	syncEvery  int64
-	vrf        vrfView   // VRF backend: epoch, its first height, alpha, proofs seen (end of the previous block)
-	lastRh     []*rhView // round state of the runtimes at the end of the previous block
-	rhQuiet    map[string]int64 // runtime -> round for which no further commitments are generated (left to the round timer)
-	vaults     bool             // vault transactions are generated
-	lastVault  []map[string]any // vault state at the end of the previous block
-	noRounds   bool      // do not submit executor commitments
-	lastPropH  int64     // height of the last successful proposal
-	nProposals int       // governance proposals submitted successfully so far (their ids are 1..nProposals)
-	maxGroup   int       // largest primary committee size requested by runtime registrations
+	lastProj    map[string]any
+	lastReg     map[string]any
+	sent        [][]byte // previously included raw transactions (for replays)
+	diverged    []map[string]any
+	panics      []string
+	rejects     int
+	paths       map[string]int
+	txKinds     map[string]int
+	sched       [][]string            // optional per-height path assignment (from TLC)
+	nodeRts     map[string]string     // runtimes each node is currently registered for
+	pendRts     map[*cnTxSpec]string  // proposed runtime lists of not yet executed registrations
+	rtOwner     map[string]string     // registered runtimes -> owning entity
+	rtDeps      map[string][][2]int64 // registered runtimes -> deployments (version, valid from) as last accepted
+	nodeVer     map[string]int64      // "node/runtime" -> runtime version the node last registered successfully
+	epoch       int64
+	blockLog    map[int64]*cnLogged // decided blocks with the validator set they were executed under and the observer\'s app hash
+	nSync       int
+	syncEvery   int64
+	vrf         vrfView          // VRF backend: epoch, its first height, alpha, proofs seen (end of the previous block)
+	lastRh      []*rhView        // round state of the runtimes at the end of the previous block
+	rhQuiet     map[string]int64 // runtime -> round for which no further commitments are generated (left to the round timer)
+	vaults      bool             // vault transactions are generated
+	otherTxs    []cnBlockResult  // results of the current block on the validator replicas (all paths but the observer's)
+	slashedEnts []string         // entities against whose validator evidence was included (their escrow was slashed)
+	lastVault   []map[string]any // vault state at the end of the previous block
+	noRounds    bool             // do not submit executor commitments
+	lastPropH   int64            // height of the last successful proposal
+	nProposals  int              // governance proposals submitted successfully so far (their ids are 1..nProposals)
+	maxGroup    int              // largest primary committee size requested by runtime registrations
 }
 
 func (d *cnDriver) emit(m map[string]any) {
@@ -245,6 +248,9 @@ func (d *cnDriver) genSpec() cnTxSpec {
 		sp.Amount = amtClass(bal)
 	case "reclaim":
 		sp.To = fmt.Sprintf("E%d", d.rng.Intn(ents))
+		if len(d.slashedEnts) > 0 && d.rng.Intn(2) == 0 {
+			sp.To = d.slashedEnts[d.rng.Intn(len(d.slashedEnts))] // an escrow whose share price fell below one base unit per share
+		}
 		var own int64
 		if dl, ok := d.lastProj["del"].([][]any); ok {
 			for _, e := range dl {
@@ -361,6 +367,11 @@ func (d *cnDriver) step() error {
 		// never against validator 1: the documented precondition needs one stake-eligible validator to remain
 		if v := vs[d.rng.Intn(len(vs))]; v != 1 {
 			b.Evidence = append(b.Evidence, v)
+			if v < n.cfg.Validators {
+				if e := fmt.Sprintf("E%d", v); !slices.Contains(d.slashedEnts, e) {
+					d.slashedEnts = append(d.slashedEnts, e)
+				}
+			}
 		}
 	}
 	if d.rng.Intn(40) == 0 && h > 2 {
@@ -392,6 +403,9 @@ func (d *cnDriver) step() error {
 			// epoch and are merged into one
 			twin := sp
 			twin.Amount, sp.Amount = sp.Amount/2, sp.Amount-sp.Amount/2
+			if d.rng.Intn(3) == 0 {
+				twin.Amount, sp.Amount = 1, sp.Amount+twin.Amount-1 // the second reclaim is a single share (worth nothing after a slash)
+			}
 			metas[len(metas)-1].spec.Amount = sp.Amount
 			if raw1, err1 := n.buildTx(metas[len(metas)-1].spec, d.rng); err1 == nil {
 				metas[len(metas)-1].raw = raw1
@@ -543,11 +557,40 @@ func (d *cnDriver) step() error {
 				sp.Validity = "badpct"
 			}
 		}
+		if d.rng.Intn(3) > 0 {
+			// incoming message queue: small enough to fill up within a scenario (the executor commitments of the scenarios consume nothing)
+			sp.InMsgs = fmt.Sprintf("%d:%d", []int{0, 1, 1, 2, 2, 3}[d.rng.Intn(6)], []int{0, 0, 1, 3}[d.rng.Intn(4)])
+		}
 		if raw, err := n.buildTx(sp, d.rng); err == nil {
 			nonceBump[e]++
 			metas = append(metas, cnTxMeta{sp, raw})
 		} else {
 			return err
+		}
+	}
+	if len(d.rtOwner) > 0 && d.rng.Intn(2) == 0 {
+		// messages submitted to a runtime: tokens and fee go to the runtime's account, the message is queued - or, when the queue is
+		// full / closed, the fee is below the runtime's minimum, the runtime is suspended or the sender cannot pay: nothing happens
+		accts := n.accounts()
+		a := accts[d.rng.Intn(len(accts))]
+		rts := d.runtimeNames()
+		if d.rng.Intn(5) > 0 { // mostly to runtimes that are running
+			var act []string
+			for _, v := range d.lastRh {
+				if !v.Suspended && v.HasComm {
+					act = append(act, v.RT)
+				}
+			}
+			if len(act) > 0 {
+				rts = act
+			}
+		}
+		bal := d.acctField(a.name, "g")
+		sp := &cnTxSpec{Kind: "submitmsg", Signer: a.name, To: rts[d.rng.Intn(len(rts))], Amount: []int64{0, 1, 7, bal / 2, bal + 1}[d.rng.Intn(5)],
+			MsgFee: int64(d.rng.Intn(4)), Fee: int64(d.rng.Intn(2)), Nonce: uint64(d.acctField(a.name, "n")) + nonceBump[a.name], Gas: 3000, Validity: "ok"}
+		if raw, err := n.buildTx(sp, d.rng); err == nil {
+			nonceBump[a.name]++
+			metas = append(metas, cnTxMeta{sp, raw})
 		}
 	}
 	if d.rng.Intn(9) == 0 && n.cfg.Validators > 1 {
@@ -740,10 +783,30 @@ func (d *cnDriver) step() error {
 			metas = append(metas, cnTxMeta{sp, raw})
 		}
 	}
-	if d.rng.Intn(15) == 0 {
-		junk := make([]byte, 1+d.rng.Intn(40))
-		d.rng.Read(junk)
-		metas = append(metas, cnTxMeta{&cnTxSpec{Kind: "junk", Validity: "junk"}, junk})
+	if d.rng.Intn(6) == 0 {
+		// bytes that are no transaction envelope at all, anywhere in the block (a proposer may put anything into a block): random
+		// bytes, an authentic envelope with its CBOR framing broken, an envelope above the size limit
+		var junk []byte
+		switch k := d.rng.Intn(4); {
+		case k == 0 && len(metas) > 0:
+			src := metas[d.rng.Intn(len(metas))].raw
+			junk = append([]byte{}, src...)
+			junk[0] ^= 0xe0 // another CBOR major type
+		case k == 1:
+			junk = make([]byte, 32768+1+d.rng.Intn(64))
+			d.rng.Read(junk)
+			if len(metas) > 0 { // an authentic envelope padded beyond the limit
+				copy(junk, metas[d.rng.Intn(len(metas))].raw)
+			}
+		default:
+			junk = make([]byte, 1+d.rng.Intn(40))
+			d.rng.Read(junk)
+		}
+		pos := d.rng.Intn(len(metas) + 1)
+		if d.rng.Intn(2) == 0 {
+			pos = 0
+		}
+		metas = append(metas[:pos], append([]cnTxMeta{{&cnTxSpec{Kind: "junk", Validity: "junk"}, junk}}, metas[pos:]...)...)
 	}
 	var mempool [][]byte
 	for _, m := range metas {
@@ -867,6 +930,7 @@ func (d *cnDriver) step() error {
 	for k, v := range d.valset {
 		vcopy[k] = v
 	}
+	d.otherTxs = results[1:]
 	results[0] = d.observe(b, metas)
 	if d.blockLog != nil {
 		d.blockLog[h] = &cnLogged{b: *b, valset: vcopy, app: results[0].AppHash}
@@ -961,6 +1025,17 @@ func (d *cnDriver) observe(b *cnBlock, metas []cnTxMeta) cnBlockResult {
 			th := hash.NewFromBytes(tx)
 			evn := map[string]any{"ev": "tx", "h": b.Height, "i": i, "id": th.String()[:16], "code": int64(resp.Code), "module": resp.Codespace,
 				"gas_used": resp.GasUsed, "nraw": len(changed), "state": proj, "env": env}
+			{
+				// the result codes the same transaction got on the replicas that executed the block on the other paths
+				// (proposed, validated as a proposal, replayed, restarted)
+				codes := []int64{}
+				for _, or := range d.otherTxs {
+					if i < len(or.Txs) {
+						codes = append(codes, int64(or.Txs[i].Code))
+					}
+				}
+				evn["codes_other"] = codes
+			}
 			if d.vaults {
 				vp, verr := n.vaultProjection(st2(r))
 				if verr != nil {
@@ -1181,7 +1256,7 @@ func consRun(args []string) int {
 	if err == nil {
 		d.lastProj, _ = net.ledgerProjection(st)
 	}
-	d.emit(map[string]any{"ev": "begin_chain", "seed": *seed, "validators": *vals, "users": *users, "epoch_interval": *interval,
+	d.emit(map[string]any{"ev": "begin_chain", "seed": *seed, "validators": *vals, "users": *users, "epoch_interval": *interval, "debond": *debond, "vrf": *vrfMode,
 		"state": d.lastProj, "valset": vu, "valset2": valRecords(vu)})
 	var runErr string
 	for i := 0; i < *blocks; i++ {
